@@ -203,8 +203,24 @@ def checkMF (c : Case) (sfx : String) (start : Array Rect) (ccs : List CC) (over
   let order := (ord.toList.map nat!).filter (· < ccs.length)
   let some scene := AdaptaVerif.Model.MakeFeasible.mkScene start ccs order
     | return (none, none, bumpStats stats "mf.unsupported" 1)
-  let mf := AdaptaVerif.Model.MakeFeasible.makeFeasible scene.n scene.vx scene.vy scene.items
+  let mfUser := AdaptaVerif.Model.MakeFeasible.makeFeasible scene.n scene.vx scene.vy scene.items
   stats := bumpStats stats "mf.modelled" 1
+  -- overlap avoidance: the NonOverlapConstraints item (lowest priority) is processed after all user constraints
+  let mut mf := mfUser
+  let mut nocOk := !overlap
+  let mut nocMargin : Rat := AdaptaVerif.Model.Vpsc.BIG
+  if overlap && !mfUser.escaped && !mfUser.fuelOut then
+    -- makeFeasible(xBorder = 1, yBorder = 1): `boundingBoxes[i]->width() / 2` is taken with the borders set
+    let half := start.map fun r => ((r.width + 2) / 2, (r.height + 2) / 2)
+    let noc0 := AdaptaVerif.Model.MakeFeasible.Noc.ofSizes half
+    match AdaptaVerif.Model.MakeFeasible.MF.runNoc ccs.length (40 * noc0.pairs.length + 100) mfUser noc0 with
+    | some (mf2, noc) =>
+      mf := mf2; nocOk := true; nocMargin := noc.margin
+      stats := bumpStats stats "mf.noc.modelled" 1
+      stats := bumpStats stats "mf.noc.trials" (mf2.log.size - mfUser.log.size)
+      stats := bumpStats stats "mf.noc.pairs_separated" ((noc.pairs.filter (·.satisfied)).length)
+      stats := bumpStats stats "mf.noc.pairs_given_up" ((noc.pairs.filter fun p => p.processed && !p.satisfied).length)
+    | none => stats := bumpStats stats "mf.noc.model-livelock" 1
   stats := bumpStats stats "mf.trials" mf.log.size
   stats := bumpStats stats "mf.trials.rejected" (mf.log.filter (!·.accepted)).size
   stats := bumpStats stats "mf.trials.threw" (mf.log.filter (!·.returned)).size
@@ -213,8 +229,11 @@ def checkMF (c : Case) (sfx : String) (start : Array Rect) (ccs : List CC) (over
   if mf.stuck then return (none, some s!"makeFeasible{sfx}: model: a sub-constraint without alternatives", stats)
   if mf.escaped then return (none, some s!"makeFeasible{sfx}: model: satisfy() throws inside the combined branch, the implementation returned", stats)
   if !mf.combineFlags.isEmpty then stats := bumpStats stats "mf.cases_with_combined_flags" 1
-  let guarded := mf.margin > mfGuard
+  let guarded := mf.margin > mfGuard && nocMargin > mfGuard
+  -- the flags of the user constraints are settled before the non-overlap item is processed
+  let guardedUser := mfUser.margin > mfGuard
   stats := bumpStats stats (if guarded then "mf.guarded" else "mf.unguarded") 1
+  if !guarded then stats := bumpStats stats (if mf.margin > mfGuard then "mf.unguarded.by-overlap-decision" else "mf.unguarded.by-solver-decision") 1
   -- flags
   let mut agree := true
   let mut msg := ""
@@ -240,23 +259,37 @@ def checkMF (c : Case) (sfx : String) (start : Array Rect) (ccs : List CC) (over
     s!"[cc{t.cc}.{t.sub} dim{t.dim.toNat'} ({t.con.l},{t.con.r},{ratToString t.con.gap},{t.con.eq}) flagged={t.flaggedOwners}]")
   -- the hook's trial log
   let mut div : Option String := none
-  if guarded && !agree then
+  if guardedUser && !agree then
     div := some s!"makeFeasible{sfx}: accepted/dropped sequence differs: {msg} (min decision margin {ratToString mf.margin})"
   if (c.get1 ("mfhook" ++ sfx)).isSome then
     stats := bumpStats stats "mf.hook" 1
     let trials := (c.get ("mftrial" ++ sfx)).filter fun l => int! (l[0]?.getD "-1") ≥ 0
-    if guarded && div.isNone then
-      if trials.size != mf.log.size then
-        div := some s!"makeFeasible{sfx}: {trials.size} trials on user constraints in the implementation, model {mf.log.size}"
+    let nocTrials := (c.get ("mftrial" ++ sfx)).filter fun l => int! (l[0]?.getD "-1") < 0
+    let userLog := mf.log.filter (·.cc < ccs.length)
+    let nocLog := mf.log.filter (·.cc ≥ ccs.length)
+    if guarded && div.isNone && nocOk && overlap then
+      if nocTrials.size != nocLog.size then
+        div := some s!"makeFeasible{sfx}: {nocTrials.size} non-overlap trials in the implementation, model {nocLog.size}"
       else
-        for (l, t) in trials.toList.zip mf.log.toList do
+        for (l, t) in nocTrials.toList.zip nocLog.toList do
+          let gapOk := match num? l[5]! with | some g => ratAbs (g - t.con.gap) ≤ (1 / 1000000000000 : Rat) * (1 + ratAbs g) | none => false
+          let ok := nat! l[1]! == t.dim.toNat' && nat! l[2]! == t.alt && nat! l[3]! == t.con.l
+                    && nat! l[4]! == t.con.r && gapOk && (l[7]! == "1") == t.accepted
+          if !ok && div.isNone then
+            div := some s!"makeFeasible{sfx}: non-overlap trial log differs: impl {l} model alt{t.alt} dim{t.dim.toNat'} ({t.con.l},{t.con.r},{ratToString t.con.gap}) accepted={t.accepted}"
+        if div.isNone then stats := bumpStats stats "mf.noc.trial_log_equal" 1
+    if guardedUser && div.isNone then
+      if trials.size != userLog.size then
+        div := some s!"makeFeasible{sfx}: {trials.size} trials on user constraints in the implementation, model {userLog.size}"
+      else
+        for (l, t) in trials.toList.zip userLog.toList do
           let ok := nat! l[0]! == t.cc && nat! l[1]! == t.dim.toNat' && nat! l[2]! == t.alt && nat! l[3]! == t.con.l
                     && nat! l[4]! == t.con.r && num? l[5]! == some t.con.gap && (l[6]! == "1") == t.con.eq
                     && (l[7]! == "1") == t.accepted
           if !ok && div.isNone then
             div := some s!"makeFeasible{sfx}: trial log differs: impl {l} model cc{t.cc} sub{t.sub} alt{t.alt} dim{t.dim.toNat'} ({t.con.l},{t.con.r},{ratToString t.con.gap},{t.con.eq}) accepted={t.accepted}"
   -- positions (only when no later non-overlap phase moved the nodes)
-  if guarded && agree && !overlap && div.isNone then
+  if guarded && agree && nocOk && div.isNone then
     match parseRects c ("mfout" ++ sfx) with
     | some outs =>
       if outs.size == start.size then
@@ -266,9 +299,9 @@ def checkMF (c : Case) (sfx : String) (start : Array Rect) (ccs : List CC) (over
             let b := mf.nodePos d i
             if ratAbs (a - b) > (1 / 1000000 : Rat) * (1 + ratAbs b) && div.isNone then
               div := some s!"makeFeasible{sfx}: node {i} dim {d.toNat'}: impl centre {ratToString a} model {ratToString b}"
-        stats := bumpStats stats "mf.positions_compared" 1
+        stats := bumpStats stats (if overlap then "mf.noc.positions_compared" else "mf.positions_compared") 1
     | none => pure ()
-  return (some { droppedModel := mf.droppedCCs, brokenModel := mf.brokenCCs, droppedImpl := droppedImpl.eraseDups, guarded := guarded,
+  return (some { droppedModel := mf.droppedCCs, brokenModel := mf.brokenCCs, droppedImpl := droppedImpl.eraseDups, guarded := guardedUser,
                  flagsAgree := agree, msg := trace }, div, stats)
 
 /-- is compound constraint `j` (or an alignment it refers to) in `dropped`? -/
